@@ -28,6 +28,16 @@ def tree(relpath):
     return parse(relpath)[relpath]
 
 
+def tree_abs(path):
+    """Parse a file by absolute path (fixtures under /verif)."""
+    if not os.path.exists(BIN):
+        raise AnalysisError(f"extractor not built: {BIN} (run ./setup.sh)")
+    r = subprocess.run([BIN, path], capture_output=True, text=True)
+    if r.returncode != 0:
+        raise AnalysisError("tabfacts failed: " + r.stderr[-2000:])
+    return json.loads(r.stdout)[path]
+
+
 def walk(node):
     """Pre-order walk over every dict node of a tree."""
     st = [node]
